@@ -233,6 +233,70 @@ func streamOps(o *Out, r *rand.Rand, n int, thorough bool) {
 			}
 		}
 	}
+	// float32 operands (host values, elements of a []float32, struct fields): as soon as one operand is a float the operation is
+	// carried out in float64, the float32 widened exactly as Go's float64(x) does
+	f32s := []float32{2.5, 1.1, 0.1, -0.25, 3, 16777216, 1.0 / 3}
+	others := []interface{}{int64(2), int64(-3), int64(0), int64(1), 1.1, 0.5, 2.0, float32(1.1), float32(2.5)}
+	for _, fa := range f32s {
+		for _, ob := range others {
+			for _, src := range []string{"a", "fs[0]", "st.F"} {
+				for _, order := range []int{0, 1} {
+					for _, op := range []string{"+", "-", "*", "/", "<", "<=", ">", ">="} {
+						l, rr := src, "b"
+						if order == 1 {
+							l, rr = "b", src
+						}
+						toF := func(x interface{}) float64 {
+							switch v := x.(type) {
+							case int64:
+								return float64(v)
+							case float64:
+								return v
+							case float32:
+								return float64(v)
+							}
+							return 0
+						}
+						x, y := float64(fa), toF(ob)
+						if order == 1 {
+							x, y = y, x
+						}
+						var want interface{}
+						switch op {
+						case "+":
+							want = x + y
+						case "-":
+							want = x - y
+						case "*":
+							want = x * y
+						case "/":
+							want = x / y
+						case "<":
+							want = x < y
+						case "<=":
+							want = x <= y
+						case ">":
+							want = x > y
+						case ">=":
+							want = x >= y
+						}
+						text := l + " " + op + " " + rr
+						out := runScript(text, map[string]interface{}{"a": fa, "b": ob, "fs": []float32{fa}, "st": &struct{ F float32 }{fa}}, nil)
+						o.Sum.Evaluations++
+						o.Sum.Hist["float32-operand"]++
+						if out.panicked || out.err != nil || !sameValue(want, out.val) {
+							o.Fail(Failure{Oracle: "go-arithmetic", Key: "float32-operand:" + op, Input: fmt.Sprintf("%s with a = fs[0] = st.F = float32(%v), b = %T(%v)", text, fa, ob, ob),
+								Detail: fmt.Sprintf("Go computes %v in float64; interpreter gave %v (%T), err=%v", want, out.val, out.val, out.err)})
+						}
+					}
+				}
+			}
+			neg := runScript("-a", map[string]interface{}{"a": fa}, nil)
+			if neg.panicked || neg.err != nil || !sameValue(-float64(fa), neg.val) {
+				o.Fail(Failure{Oracle: "go-arithmetic", Key: "float32-operand:neg", Input: fmt.Sprintf("-a with a = float32(%v)", fa), Detail: fmt.Sprintf("Go computes %v; interpreter gave %v (%T)", -float64(fa), neg.val, neg.val)})
+			}
+		}
+	}
 	for _, op := range unOps {
 		for _, a := range vals.All() {
 			for m := 0; m < 3; m++ {
